@@ -278,7 +278,9 @@ def check_las_update(ctx, P):
                 got.add((str(wrap_value(fs)), "set", _norm(show(tb.joperand(c["args"][1]))), show(tb.joperand(c["args"][2]))))
     want = {("True", "fill", "Range::Range(sa, da)", "False"), ("False", "fill", "RangeFrom::RangeFrom(sa)", "False"),
             ("False", "fill", "RangeTo::RangeTo(da)", "False"), ("True", "set", "sa", "True"), ("False", "set", "sa", "True")}
-    ctx.anchor("fill sites in update_las_from_token_pass", nfill, 2)
+    if nfill == 0:
+        ctx.notes.append("g.las-update: update_las_from_token_pass does not clear the span with BitSlice::fill - table not read, not decided")
+        return
     ctx.ob("g.las-update", "span-cleared-source-entered", got == want,
            "a witnessed token pass sa->da must clear exactly [sa, da) (for da <= sa: [sa, ..) and [.., da)) and then enter sa; the code does %s "
            "(missing %s, unexpected %s)" % (sorted(got), sorted(want - got), sorted(got - want)), f.loc(0))
@@ -354,6 +356,10 @@ def check_neighbours(ctx, P):
     want = {"next_station": {("find(Gt this)", ()), ("first", ("find",)), ("this", ("find", "first"))},
             "previous_station": {("find-rev(Lt this)", ()), ("last", ("find-rev",)), ("this", ("find-rev", "last"))}}
     for fld in want:
+        if not table[fld] or any(k.startswith("?") or "(?)" in k for k, _ in table[fld]):
+            ctx.notes.append("h.neighbours: the definitions of the value stored into %s are not in the recognised if-let / Iterator::find "
+                             "spelling (%s) - table not read, not decided" % (fld, sorted(table[fld])[:3]))
+            continue
         ctx.ob("h.neighbours", "table|" + fld, table[fld] == want[fld],
                "%s must be %s; the code computes %s" % (fld, sorted(want[fld]), sorted(table[fld])), f.loc(0))
     ctx.sample({"clause": "h.neighbours", "table": {k: sorted(map(str, v)) for k, v in table.items()}})
